@@ -612,9 +612,32 @@ def extract_fn(fn, mutate=False):
         k_sc += k1 + k2
     if fn.scopes:
         log.note("R4.scope", k_sc)
-    # constructor initialiser lists are not supported
-    if re.search(r"\)\s*:\s*\w+\s*\(", sig):
-        raise ExtractionError(f"{fn.name}: constructor initialiser lists are not extractable")
+    # R4b: constructor `Name(params) : m1(e1), m2(e2)` -> `void name(params)` with `m1 = e1; m2 = e2;` first
+    mctor = re.match(r"^(.*?\))\s*:\s*(\w+\s*\(.*)$", sig, flags=re.S)
+    if mctor:
+        inits, depth, cur = [], 0, ""
+        for c in mctor.group(2):
+            if c in "([{":
+                depth += 1
+            elif c in ")]}":
+                depth -= 1
+            if c == "," and depth == 0:
+                inits.append(cur.strip())
+                cur = ""
+            else:
+                cur += c
+        if cur.strip():
+            inits.append(cur.strip())
+        assigns = []
+        for it in inits:
+            mi = re.fullmatch(r"(\w+)\s*\((.*)\)", it, flags=re.S)
+            if not mi:
+                raise ExtractionError(f"{fn.name}: constructor initialiser `{it}` not understood")
+            assigns.append(f"{mi.group(1)} = {mi.group(2)};")
+        sig = "void " + mctor.group(1).strip()
+        b0 = body.index("{")
+        body = body[:b0 + 1] + "\n" + "\n".join(assigns) + "\n" + body[b0 + 1:]
+        log.note("R4b.ctor-init", len(assigns))
     if fn.piece:
         pc = fn.piece
         if isinstance(pc, tuple):      # legacy tuple forms
